@@ -80,6 +80,11 @@ META = {
         "statistics: STD is claimed only for >= 2 errors (torch.std of one value is NaN — the only non-finite value accepted from the "
         "implementation; every other non-finite result for finite valid input is a `non-finite result` failure before any comparison); "
         "the other six statistics for >= 1",
+        "pass 10: on collinear positions the clauses that survive D43 are now proved at full strength from weaker hypotheses than the "
+        "contract: ape translation identical => 0 from optimality alone (ape_identical_zero_translation), rpe identical => 0 with "
+        "align+scale from optimality + two distinct positions (rpeCore_identical_zero_svd_of_optimal), rpe invariance under a similarity "
+        "from validity + scale consistency of svdstf alone (rpeCore/rpe_align_invariant_of_scale). Still partial: translation-type ape "
+        "INVARIANCE on collinear positions (needs uniqueness of the optimal action on the line)",
         "rpe svd-mode invariance with scale (rpeCore_align_invariant_partial) takes the svdstf contract as hypothesis like the ape version; "
         "alignOK_transport shows the contract at the transformed point set follows from the contract at the original one",
         "closed-form spline theorems: Exp(Log D) ~ D is proved in the generic regime and for exactly equal orientations; relative "
